@@ -650,7 +650,14 @@ func (in *Interp) makeSliceOp(fr *frame, x *ssa.MakeSlice) Value {
 	n := in.Concretize(ln, in.maxLen, "make len")
 	cc := n
 	if cp != ln {
-		cc = in.Concretize(cp, in.maxLen*2, "make cap")
+		if cp.IsConst() {
+			cc = int(cp.Val)
+		} else {
+			// a symbolic capacity does not influence behaviour except through
+			// cap() and append aliasing: it is not case-split (and not
+			// constrained); the slice gets cap = len
+			in.res.addCut("make: symbolic capacity treated as cap=len at " + in.site())
+		}
 	}
 	return in.makeSlice(elem, n, cc)
 }
@@ -737,9 +744,16 @@ func (in *Interp) sliceOp(fr *frame, x *ssa.Slice) Value {
 	if !in.Branch(ok) {
 		in.throwRuntime("slice bounds out of range")
 	}
-	l := in.Concretize(lo, limit, "slice low")
-	h := in.Concretize(hi, limit, "slice high")
-	m := in.Concretize(mx, limit, "slice max")
+	cb := limit
+	if in.maxLen < cb {
+		cb = in.maxLen
+	}
+	l := in.Concretize(lo, cb, "slice low")
+	h := in.Concretize(hi, cb, "slice high")
+	m := limit
+	if x.Max != nil {
+		m = in.Concretize(mx, limit, "slice max")
+	}
 	if isStr {
 		if str.Sym != nil {
 			return in.mkStr(str.Sym[l:h])
